@@ -9,8 +9,10 @@ CONSTANTS
   MemoBug = FALSE
   SharedOutBug = FALSE
   InPlaceBug = FALSE
+  LazyCtorBug = FALSE
 VIEW View
 INVARIANT ResultFromCurrentContent
 INVARIANT ResultsStable
+INVARIANT BuiltFromCtorValue
 PROPERTY ArgsUntouched
 INVARIANT Emit
